@@ -67,7 +67,7 @@ def prepare():
 # case strategies
 # --------------------------------------------------------------------------------------
 SPECIES = "ABCDEFGH"
-FAMILIES = ["a", "b", "c", "d"]
+FAMILIES = ["a", "b", "c", "d", "e", "f"]
 
 
 @st.composite
@@ -123,7 +123,7 @@ def _input(draw, labelled, max_obj, max_sp, max_fam, polytomy=False, coherent=Tr
         # inheritance chains of the unordered model and path-dependent decoding live
         nsp = draw(st.integers(2, 3))
         species = draw(_shape(list(SPECIES[:nsp]), 2))
-        nobj = 5
+        nobj = max(5, min(max_obj, draw(st.integers(5, 7))))
         leaves = [f"{SPECIES[draw(st.integers(0, nsp - 1))]}_{i}" for i in range(nobj)]
         order = draw(st.permutations(leaves))
         obj = order[0]
@@ -228,12 +228,15 @@ def _case(draw, pid, tier):
             if pid == "C05":
                 algos = ["superdtl", "base_uspfs"]
     else:
-        max_obj, max_sp, max_fam = (9, 7, 4) if not labelled else (6, 5, 3)
+        max_obj, max_sp, max_fam = (8, 7, 4) if not labelled else (6, 5, 3)
     if polytomy:
         max_obj, max_sp, max_fam = 4, 4, 3
     ninputs = 1 if draw(st.integers(0, 3)) else 2
     chain = (pid == "C03" or (pid == "C05" and algos[0] == "superdtl")) \
         and draw(st.integers(0, 2)) == 0
+    if pid == "C04" and labelled and not polytomy and draw(st.integers(0, 3)) == 0:
+        # validity needs no brute-force oracle: deeper chains, more families
+        chain, algos, max_obj, max_fam = True, ["superdtl", "superdtl", "base_uspfs"], 7, 5
     inputs = [
         draw(_input(labelled, max_obj, max_sp, max_fam, polytomy, coherent,
                     min_obj=2 if pid in ("C08",) else 1, single_family=single_family,
@@ -276,7 +279,7 @@ def _case(draw, pid, tier):
                 "algo": draw(st.sampled_from(algos)),
                 "input": draw(st.integers(0, ninputs - 1)),
                 "kind": draw(st.sampled_from(["reorder", "rename", "outgroup", "scale", "raise",
-                                              "again"])),
+                                              "again", "inplace"])),
                 "param": draw(st.integers(0, 1000)),
                 "order": draw(ORDER),
                 "order2": draw(ORDER),
@@ -379,6 +382,7 @@ class Slot:
         self.binary = ref.is_binary(spec["object"]) and ref.is_binary(spec["species"])
         self.results = {}  # (algo, policy) -> list of (order, cost, keys)
         self.last_outs = []
+        self.dirty = set()  # what happened to the object since it was built
         self._ref = {}
         self.valid_keys = None
 
@@ -497,9 +501,6 @@ def check_outputs(run, slot, algo, policy, outs, where, regime):
                               f"{want_col}")
             if want_col:
                 run.probe("coloured_polytomy")
-            names_all = [n.name for n in otree.traverse()] + [n.name for n in stree.traverse()]
-            run.check(all(names_all) and "NoName" not in names_all, ("C08",),
-                      "C08.unnamed-node", lambda: f"{where}: unnamed node in {names_all}")
             leaf_sp = {v.name: s.name for v, s in out.input.leaf_object_species.items()}
             run.check(leaf_sp == (spec.get("leaf_species") or spec_leaf_species(spec)),
                       ("C08",), "C08.leaf-data",
@@ -681,6 +682,22 @@ def do_solve(run, slots, op, idx, regime):
     if slot.binary:
         slot.last_outs = outs[:3]
     record(run, slot, algo, policy if algo != "lca" else "ALL", op["order"], cost, keyset, where)
+    if slot.dirty and run.wants("C09", "C05", PROP_OF[algo]):
+        # the object has a history (costs changed in place, label_internal, a drawing): the
+        # same problem presented as a freshly built object must give the same answer
+        fresh = Slot(slot.spec)
+        outs2 = call_solver(run, fresh, algo, policy, op["order"], 0, where + " (fresh object)")
+        if outs2 is not None:
+            cost2, keys2 = check_outputs(run, fresh, algo, policy, outs2,
+                                         where + " (fresh object)", regime)
+            if cost2 != INVALID:
+                run.probe("fresh_object_compared")
+                run.check(cost2 == cost and (policy != "ALL" or keys2 == keyset),
+                          ("C09", "C05", PROP_OF[algo]), "C09.history-on-object-changes-result",
+                          lambda: f"{where}: {algo}({policy}) on the caller's object after "
+                                  f"{sorted(slot.dirty)} gives cost {cost}, {len(keyset)} "
+                                  f"solutions; on a freshly built object of the same problem "
+                                  f"cost {cost2}, {len(keys2)} solutions; input {slot.spec}")
     run.event(idx, "solve", algo, policy, op["order"], ORACLE.consults, repr(cost),
               sorted(keyset))
     probe_case(run, slot, algo, outs)
@@ -732,6 +749,7 @@ def do_draw(run, slots, op, idx):
     after = slot.obj.object_tree.write(format=8, format_root_node=True, features=["color"])
     if before != after:
         run.probe("draw_added_colour")
+    slot.dirty.add("draw")
     run.probe("draw_between_solves")
     run.nontrivial = True
     run.event(idx, "draw", before != after)
@@ -759,6 +777,7 @@ def do_recost(run, slots, op, idx):
     slot.results = {}   # earlier results belong to the old costs
     slot._ref = {}
     slot.last_outs = []
+    slot.dirty.add("recost")
     run.probe("recost_in_place")
     run.nontrivial = True
     run.event(idx, "recost", which, value)
@@ -772,6 +791,7 @@ def do_relabel(run, slots, op, idx):
     if before != after:
         run.probe("label_internal_renamed")
         run.nontrivial = True
+        slot.dirty.add("relabel")
     run.event(idx, "relabel", after)
 
 
@@ -997,6 +1017,57 @@ def derive(spec, kind, param):
     raise HarnessError(kind)
 
 
+def do_inplace(run, slots, slot, op, idx, regime):
+    """Solve, change one unit cost IN PLACE on the same object (same tree objects), solve
+    again, and compare with a freshly built object of the new problem: anything remembered
+    from the first run (tables, caches keyed by node or by input identity) shows here."""
+    algo = op["algo"]
+    where = f"op {idx} meta inplace"
+    pol = tame_policy(slot, "ALL")
+    outs0 = call_solver(run, slot, algo, pol, op["order"], 0, where + " before")
+    if outs0 is None:
+        return
+    c0, k0 = check_outputs(run, slot, algo, pol, outs0, where + " before", regime)
+    if c0 == INVALID:
+        return
+    record(run, slot, algo, pol, op["order"], c0, k0, where)
+    which = ["floss", "dup", "floss", "hgt", "floss", "spe", "sloss"][op["param"] % 7]
+    if slot.spec["costs"][which] == "inf":
+        which = "floss"  # an infinite cost cannot be raised
+    cur = slot.spec["costs"][which]
+    value = cur + 1 + (op["param"] // 7) % 2
+    before = dict(slot.spec["costs"])
+    do_recost(run, slots, {"input": slots.index(slot), "which":
+                           ["spe", "dup", "hgt", "floss", "sloss"].index(which),
+                           "value": value}, idx)
+    if slot.spec["costs"] == before:
+        return
+    outs1 = call_solver(run, slot, algo, pol, op["order2"], 0, where + " after")
+    if outs1 is None:
+        return
+    c1, k1 = check_outputs(run, slot, algo, pol, outs1, where + " after", regime)
+    if c1 == INVALID:
+        return
+    record(run, slot, algo, pol, op["order2"], c1, k1, where)
+    fresh = Slot(slot.spec)
+    outs2 = call_solver(run, fresh, algo, pol, op["order2"], 0, where + " fresh")
+    if outs2 is None:
+        return
+    c2, k2 = check_outputs(run, fresh, algo, pol, outs2, where + " fresh", regime)
+    if c2 == INVALID:
+        return
+    run.probe("meta_inplace")
+    run.nontrivial = True
+    run.check(c1 == c2 and (pol != "ALL" or k1 == k2), ("C09",),
+              "C09.history-on-object-changes-result",
+              lambda: f"{where}: {algo} after raising {which} to {value} in place on an object "
+                      f"already solved once: cost {c1}, {len(k1)} solutions; the same problem "
+                      f"built afresh: cost {c2}, {len(k2)} solutions; input {slot.spec}")
+    run.check(c0 is None or c1 is None or c1 >= c0, ("C09",), "C09.raise-lowers-minimum",
+              lambda: f"{where}: {algo} minimum {c0} -> {c1} after raising {which}")
+    run.event(idx, "inplace", algo, which, repr(c0), repr(c1), repr(c2))
+
+
 def do_meta(run, slots, op, idx, regime):
     slot = slots[op["input"] % len(slots)]
     algo = op["algo"]
@@ -1007,6 +1078,8 @@ def do_meta(run, slots, op, idx, regime):
         return
     if not in_region(slot.spec["costs"], mode is not None):
         return
+    if op["kind"] == "inplace":
+        return do_inplace(run, slots, slot, op, idx, regime)
     derived = derive(slot.spec, op["kind"], op["param"])
     if derived is None:
         return
@@ -1302,7 +1375,8 @@ def describe(pid):
             "C08": ["order_permuted", "polytomy_input", "polytomy_oracle", "two_generators_alive",
                     "cancelled_midway", "F1_cancel", "F1_throw"],
             "C09": ["order_permuted", "meta_again", "meta_reorder", "meta_rename",
-                    "meta_outgroup", "meta_scale", "meta_raise", "rerun_other_order"],
+                    "meta_outgroup", "meta_scale", "meta_raise", "meta_inplace",
+                    "fresh_object_compared", "rerun_other_order", "fresh_process"],
             "C10": ["order_permuted", "single_family", "hgt_inf", "transfer_in_optimum"],
         }[pid],
     }
@@ -1354,6 +1428,9 @@ def observe(case, order=0):
             si = op["input"] % len(slots)
             slot = slots[si]
             if not slot.binary or not in_region(slot.spec["costs"], MODE[op["algo"]] is not None):
+                continue
+            if op["kind"] == "inplace":
+                call(si, slot, op["algo"], "ALL", idx)
                 continue
             derived = derive(slot.spec, op["kind"], op["param"])
             if derived is None:
